@@ -30,6 +30,10 @@ CLAIMS = {
          "Every function on the decryption path of internal/util and internal/cli/settings carries a postcondition 'nil error ==> the AES-GCM tag of the input verified under the key derived from the passphrase' and safe-mode obligations on every slice; callers are checked against callee contracts. All obligations are discharged for all inputs (no bound).",
          "Trusted: AES-GCM authenticity (cipher.AEAD.Open contract), KDFs are functions, base64 decoding is a function; frame rules of DESIGN §3.5; sequential semantics. The round-trip direction (decrypt(encrypt(x)) == x) rests on the trusted AEAD contract and is not machine-checked.",
          "§7 C27, Appendix A"),
+ "C28": ("proof",
+         "Every cache operation (Add, Find, Delete, purge/Purge/PurgeLocal/PurgeAll, SetExpiration, sweepExpired, newCache, Size, Active, notifyEvictions) is under a functional contract over the abstract state cache id -> (key -> (data, expires), lifetime, limit) read off the real cacheList, frames included (every other key and every other cache untouched). Add: the entry under the key afterwards is the value just stored or absent, never an older one; it is absent only when the cache is full; it lives a full lifetime from now. Find: a hit exactly when the entry is present, returns the data stored, renews it, changes nothing else. Delete: the entry is gone, reports whether it was there, and hands notifyEvictions exactly that entry with its old value, after the lock is released. sweepExpired (inductive invariants over the map range): removes only expired entries, every entry expired before the sweep is gone, the batch reported is exactly the set removed with the old values. notifyEvictions: the listener is called exactly once per entry of the batch. purge: the cache is gone and every cache's effective lifetime is unchanged (the clause from the statement); SetExpiration sets it. Representation invariants checked at every writer: entries within the limit, entry maps never shared between caches, the configured lifetime in force. Lock discipline (ghost lock state): the cache table is read only with cacheLock held and written only with the write lock, every operation is one critical section and returns with the lock released. Table obligations: every writer of the table, the records and the lifetimes is one of these functions.",
+         "The statement quantifies over concurrent histories: what is machine-checked is the sequential contract of each operation plus the lock discipline (single critical section per operation under one lock); the step from there to linearisability is the standard lock argument, stated, not checked, and interleavings are not explored. `active` and the eviction listener are read once outside the lock (a toggle or registration in between is not covered). Trusted: sync.RWMutex, Go's map range visits each key once, monotone clock. Latent: SetExpiration with caching switched off would store into a nil table (Active is never called outside tests) — noted, outside this statement.",
+         "§7 C28"),
  "C29": ("proof",
          "Per-node contracts that carry the statement for a cluster of any size. caches.purge/Purge/PurgeLocal: a purge discards the cache; a purge that originates on the node fires the broadcast hook exactly once (whether or not the cache existed locally) with the id of the cache purged; a purge applied on behalf of a peer (PurgeLocal) never fires it. cluster.ListActiveMembers is the filter of the member list (inductive invariant: every member returned is active and is not this node, and the number returned equals the number of active peers seen, each one appended being the member under the cursor). cluster.BroadcastCacheFlush calls SendCacheFlush exactly once per peer found, with that peer, the cache id it was given and the origin hop count (loop invariant: calls == peers visited; no early exit). cluster.SendCacheFlush issues at most one request, to the URL built from the peer's scheme/host/port, naming the cache and hop count it was given. cluster.FlushCacheHandler, on every path, fires no hook, calls no SendCacheFlush and issues no request, and on the accepted path the cache named in the request is gone when it returns.",
          "From the per-node contracts: one Purge on one node causes exactly one hook firing, hence one SendCacheFlush and at most one request per active peer (bounded by the number of peers), and a receiving node sends nothing (zero secondary messages), for any number of nodes and any sequence of purges — by induction over the sequence; that composition is an argument in DESIGN.md, not a machine-checked lemma. Message delays and drops are outside the contracts (a dropped request is a peer not reached; the statement's 'at least once' is decided as 'asked exactly once'). The spawned `go OnPurge(id)` is counted at the go statement; its body is BroadcastCacheFlush by cluster.Initialize's assignment (trusted). Trusted: database/sql for the member list, net/http. Sequential semantics.",
